@@ -76,6 +76,17 @@ def freq_vectors(tier, rnd):
     for k, mode in ((31, "prefix"), (33, "suffix")) if tier == "quick" else \
             ((30, "prefix"), (31, "suffix"), (32, "prefix"), (33, "prefix"), (33, "suffix")):
         V.append(("fibord%d_%s" % (k, mode), fib_deep(rnd, k, mode, 1)))
+    # many small EQUAL weights next to each other among frequent symbols: exact weight ties in the Hu-Tucker combination
+    # phase (which compatible neighbour wins a tie decides whether the level sequence can be recombined at all)
+    for k in range(14 if tier == "quick" else 120):
+        f = [rnd.choice([200, 500, 1000, 5000]) for _ in range(256)]
+        for _ in range(rnd.choice([1, 2, 4, 8])):
+            start = rnd.randrange(0, 250)
+            for j in range(start, min(256, start + rnd.choice([3, 6, 9, 14]))):
+                f[j] = rnd.choice([1, 1, 2, 2, 3])
+        V.append(("ties%d" % k, f))
+    for k in range(4 if tier == "quick" else 30):
+        V.append(("smallweights%d" % k, [rnd.choice([1, 1, 2, 2, 3, 4]) for _ in range(256)]))
     # counts of a text with zeros replaced by ones as the dictionaries do (freqs[i] = 1; freqs[c]++)
     for k in range(2 if tier == "quick" else 8):
         f = [1] * 256
